@@ -323,7 +323,22 @@ def _norm(con):
     return (co, c)
 
 
+class ProofBudgetExceeded(Exception):
+    pass
+
+
+DEADLINE = [None]
+
+
 def fm_feasible(cons, want_model=False, limit=4000):
+    if DEADLINE[0] is not None:
+        import time as _t
+        if _t.time() > DEADLINE[0]:
+            raise ProofBudgetExceeded()
+    return _fm_feasible(cons, want_model, limit)
+
+
+def _fm_feasible(cons, want_model=False, limit=4000):
     """cons: list of Lin (>=0).  Returns (feasible?, model or None).  Rational relaxation with integer
     tightening of constants; complete enough for the unit-coefficient systems that arise here."""
     rows = []
@@ -347,11 +362,16 @@ def fm_feasible(cons, want_model=False, limit=4000):
     work = 0
     while remaining:
         # greedy elimination order: the atom producing the fewest combinations first
+        npos, nneg = {}, {}
+        for co_, _c in cur:
+            for k_, v_ in co_.items():
+                if v_ > 0:
+                    npos[k_] = npos.get(k_, 0) + 1
+                elif v_ < 0:
+                    nneg[k_] = nneg.get(k_, 0) + 1
         best = None
         for cand in remaining:
-            np_ = sum(1 for r in cur if r[0].get(cand, 0) > 0)
-            nn_ = sum(1 for r in cur if r[0].get(cand, 0) < 0)
-            cost = np_ * nn_
+            cost = npos.get(cand, 0) * nneg.get(cand, 0)
             if best is None or cost < best[0]:
                 best = (cost, cand)
                 if cost == 0:
